@@ -58,6 +58,16 @@ type guardKey struct {
 // is a boolean Phi), the guards common to every incoming edge whose value can
 // satisfy the condition.
 func (p *Program) threadGuard(g Guard, depth int) []Guard {
+	merged, can := p.mergeTest(g)
+	if merged == nil {
+		return nil
+	}
+	return p.threadMerged(merged, can, depth)
+}
+
+// mergeTest: the merged value (Phi or cell load) a guard tests against a
+// constant, and the predicate "this incoming value may satisfy the test".
+func (p *Program) mergeTest(g Guard) (ssa.Value, func(ssa.Value) bool) {
 	v := g.Cond
 	pol := g.Pol
 	for {
@@ -67,11 +77,26 @@ func (p *Program) threadGuard(g Guard, depth int) []Guard {
 		}
 		break
 	}
-	var phi *ssa.Phi
+	// the merged value: a Phi, or a load from a local cell (a variable captured by a
+	// deferred closure, e.g. a named result) with its reaching stores
+	var merged ssa.Value
 	var can func(in ssa.Value) bool // may the incoming value satisfy the condition?
+	isMerge := func(v ssa.Value) bool {
+		if _, ok := v.(*ssa.Phi); ok {
+			return true
+		}
+		if u, ok := v.(*ssa.UnOp); ok && u.Op == token.MUL {
+			_, isCell := u.X.(*ssa.Alloc)
+			return isCell
+		}
+		return false
+	}
 	switch x := v.(type) {
-	case *ssa.Phi:
-		phi = x
+	case *ssa.Phi, *ssa.UnOp:
+		if !isMerge(v) {
+			return nil, nil
+		}
+		merged = v
 		can = func(in ssa.Value) bool {
 			if c, ok := in.(*ssa.Const); ok && c.Value != nil && c.Value.Kind() == constant.Bool {
 				return constant.BoolVal(c.Value) == pol
@@ -80,22 +105,25 @@ func (p *Program) threadGuard(g Guard, depth int) []Guard {
 		}
 	case *ssa.BinOp:
 		if x.Op != token.EQL && x.Op != token.NEQ {
-			return nil
+			return nil, nil
 		}
 		wantEq := (x.Op == token.EQL) == pol
 		ph, c := x.X, x.Y
-		if _, ok := ph.(*ssa.Phi); !ok {
+		if !isMerge(ph) {
 			ph, c = x.Y, x.X
 		}
-		var ok bool
-		if phi, ok = ph.(*ssa.Phi); !ok {
-			return nil
+		if !isMerge(ph) {
+			return nil, nil
 		}
+		merged = ph
 		k, ok := c.(*ssa.Const)
 		if !ok {
-			return nil
+			return nil, nil
 		}
 		can = func(in ssa.Value) bool {
+			if in == nil { // zero value of the cell
+				return k.Value == nil && wantEq || k.Value != nil
+			}
 			if k.Value == nil { // comparison with nil
 				if wantEq {
 					return !p.definitelyNonNil(in, 0)
@@ -110,30 +138,107 @@ func (p *Program) threadGuard(g Guard, depth int) []Guard {
 			return true
 		}
 	default:
-		return nil
+		return nil, nil
 	}
-	pb := phi.Block()
-	var common map[guardKey]Guard
-	feasible := 0
-	for i, in := range phi.Edges {
-		if !p.phiCan(in, can, 0) {
+	return p.resolveMerge(merged), can
+}
+
+// resolveMerge follows a cell load with one reaching store to the stored value.
+func (p *Program) resolveMerge(v ssa.Value) ssa.Value {
+	for i := 0; i < 4; i++ {
+		load, ok := v.(*ssa.UnOp)
+		if !ok || load.Op != token.MUL {
+			return v
+		}
+		stores, ok := reachingStores(load)
+		if !ok || len(stores) != 1 || stores[0] == nil {
+			return v
+		}
+		st := stores[0]
+		def, isInstr := st.Val.(ssa.Instruction)
+		if !isInstr {
+			return v
+		}
+		// the stored value must not be recomputed between the store and the load
+		if def.Block() != st.Block() && reachesAvoiding(st.Block(), def.Block(), st.Block()) && reachesAvoiding(def.Block(), load.Block(), st.Block()) {
+			return v
+		}
+		if _, isPhi := st.Val.(*ssa.Phi); isPhi {
+			return st.Val
+		}
+		if u, isLoad := st.Val.(*ssa.UnOp); isLoad && u.Op == token.MUL {
+			v = st.Val
 			continue
 		}
-		pr := pb.Preds[i]
-		if pb.Dominates(pr) {
-			return nil // a feasible back edge: no refinement
+		return v
+	}
+	return v
+}
+
+// reachesAvoiding: is `to` reachable from `from` (through at least one edge) without entering `avoid`?
+func reachesAvoiding(from, to, avoid *ssa.BasicBlock) bool {
+	seen := map[*ssa.BasicBlock]bool{}
+	work := append([]*ssa.BasicBlock{}, from.Succs...)
+	for len(work) > 0 {
+		b := work[len(work)-1]
+		work = work[:len(work)-1]
+		if seen[b] || b == avoid {
+			continue
 		}
-		feasible++
-		k := 0
-		for j, s := range pr.Succs {
-			if s == pb {
-				k = j
+		seen[b] = true
+		if b == to {
+			return true
+		}
+		work = append(work, b.Succs...)
+	}
+	return false
+}
+
+// feasiblePhiEdges: for a guard that tests a Phi, the incoming edges that can satisfy it.
+func (p *Program) feasiblePhiEdges(g Guard) (*ssa.Phi, []bool) {
+	merged, can := p.mergeTest(g)
+	phi, ok := merged.(*ssa.Phi)
+	if !ok {
+		return nil, nil
+	}
+	out := make([]bool, len(phi.Edges))
+	for i, in := range phi.Edges {
+		out[i] = p.phiCan(in, can, 0)
+	}
+	return phi, out
+}
+
+// feasibleEdgesAt: for the guards in force at block b, the merge blocks whose
+// incoming edges are restricted (edge index -> feasible).
+func (p *Program) feasibleEdgesAt(b *ssa.BasicBlock) map[*ssa.BasicBlock][]bool {
+	var out map[*ssa.BasicBlock][]bool
+	for _, g := range p.guardsAt(b) {
+		phi, fe := p.feasiblePhiEdges(g)
+		if phi == nil {
+			continue
+		}
+		// the guard must speak about the latest execution of the merge block
+		if !phi.Block().Dominates(b) {
+			continue
+		}
+		if out == nil {
+			out = map[*ssa.BasicBlock][]bool{}
+		}
+		if old, ok := out[phi.Block()]; ok {
+			for i := range old {
+				old[i] = old[i] && fe[i]
 			}
+		} else {
+			out[phi.Block()] = fe
 		}
-		gs := p.guardsAtDepth(pr, depth+1)
-		if ifi, ok := pr.Instrs[len(pr.Instrs)-1].(*ssa.If); ok && pr.Succs[0] != pr.Succs[1] {
-			gs = append(gs, Guard{If: ifi, Cond: ifi.Cond, Pol: k == 0})
-		}
+	}
+	return out
+}
+
+func (p *Program) threadMerged(merged ssa.Value, can func(ssa.Value) bool, depth int) []Guard {
+	var common map[guardKey]Guard
+	feasible := 0
+	meet := func(gs []Guard) {
 		m := map[guardKey]Guard{}
 		for _, x := range gs {
 			m[guardKey{x.If, x.Pol}] = x
@@ -148,11 +253,58 @@ func (p *Program) threadGuard(g Guard, depth int) []Guard {
 			}
 		}
 	}
-	if feasible == 0 || feasible == len(phi.Edges) {
-		// nothing excluded: the dominating guards already say everything
-		if feasible == 0 {
+	if phi, ok := merged.(*ssa.Phi); ok {
+		pb := phi.Block()
+		for i, in := range phi.Edges {
+			if !p.phiCan(in, can, 0) {
+				continue
+			}
+			pr := pb.Preds[i]
+			if pb.Dominates(pr) {
+				return nil // a feasible back edge: no refinement
+			}
+			feasible++
+			k := 0
+			for j, s := range pr.Succs {
+				if s == pb {
+					k = j
+				}
+			}
+			gs := append([]Guard{}, p.guardsAtDepth(pr, depth+1)...)
+			if ifi, ok := pr.Instrs[len(pr.Instrs)-1].(*ssa.If); ok && pr.Succs[0] != pr.Succs[1] {
+				gs = append(gs, Guard{If: ifi, Cond: ifi.Cond, Pol: k == 0})
+			}
+			meet(gs)
+		}
+	} else {
+		load := merged.(*ssa.UnOp)
+		stores, ok := reachingStores(load)
+		if !ok {
 			return nil
 		}
+		for _, st := range stores {
+			if st == nil {
+				if can(nil) {
+					return nil // the zero value may satisfy the test: nothing to import
+				}
+				continue
+			}
+			if !p.phiCan(st.Val, can, 0) {
+				continue
+			}
+			feasible++
+			var gs []Guard
+			for _, x := range p.guardsAtDepth(st.Block(), depth+1) {
+				// a guard evaluated again between the store and the load would be stale
+				if !cfgReaches(st.Block(), x.If.Block()) {
+					gs = append(gs, x)
+				}
+			}
+			meet(gs)
+		}
+	}
+	if feasible == 0 {
+		return nil
 	}
 	var out []Guard
 	for _, x := range common {
@@ -168,6 +320,108 @@ func (p *Program) threadGuard(g Guard, depth int) []Guard {
 		return !out[i].Pol && out[j].Pol
 	})
 	return out
+}
+
+// cfgReaches: is `to` reachable from `from` through at least one edge?
+func cfgReaches(from, to *ssa.BasicBlock) bool {
+	seen := map[*ssa.BasicBlock]bool{}
+	work := append([]*ssa.BasicBlock{}, from.Succs...)
+	for len(work) > 0 {
+		b := work[len(work)-1]
+		work = work[:len(work)-1]
+		if seen[b] {
+			continue
+		}
+		seen[b] = true
+		if b == to {
+			return true
+		}
+		work = append(work, b.Succs...)
+	}
+	return false
+}
+
+// reachingStores: the stores to a local cell that may be the last one before
+// the load (nil stands for the zero value at function entry). The cell must
+// be used only by stores, loads and closures that run deferred.
+func reachingStores(load *ssa.UnOp) ([]*ssa.Store, bool) {
+	cell, ok := load.X.(*ssa.Alloc)
+	if !ok || cell.Referrers() == nil {
+		return nil, false
+	}
+	for _, r := range *cell.Referrers() {
+		switch x := r.(type) {
+		case *ssa.Store:
+			if x.Addr != cell {
+				return nil, false
+			}
+		case *ssa.UnOp:
+			if x.Op != token.MUL {
+				return nil, false
+			}
+		case *ssa.DebugRef:
+		case *ssa.MakeClosure:
+			if x.Referrers() != nil {
+				for _, rr := range *x.Referrers() {
+					if _, isDefer := rr.(*ssa.Defer); !isDefer {
+						return nil, false
+					}
+				}
+			}
+		default:
+			return nil, false
+		}
+	}
+	lastStoreIn := func(b *ssa.BasicBlock, before ssa.Instruction) (*ssa.Store, bool) {
+		var last *ssa.Store
+		for _, in := range b.Instrs {
+			if in == before {
+				break
+			}
+			if _, isRD := in.(*ssa.RunDefers); isRD {
+				return nil, false
+			}
+			if st, ok := in.(*ssa.Store); ok && st.Addr == cell {
+				last = st
+			}
+		}
+		return last, true
+	}
+	var out []*ssa.Store
+	st, ok := lastStoreIn(load.Block(), load)
+	if !ok {
+		return nil, false
+	}
+	if st != nil {
+		return []*ssa.Store{st}, true
+	}
+	seen := map[*ssa.BasicBlock]bool{}
+	work := append([]*ssa.BasicBlock{}, load.Block().Preds...)
+	if len(load.Block().Preds) == 0 {
+		out = append(out, nil)
+	}
+	for len(work) > 0 {
+		b := work[len(work)-1]
+		work = work[:len(work)-1]
+		if seen[b] {
+			continue
+		}
+		seen[b] = true
+		st, ok := lastStoreIn(b, nil)
+		if !ok {
+			return nil, false
+		}
+		if st != nil {
+			out = append(out, st)
+			continue
+		}
+		if len(b.Preds) == 0 {
+			out = append(out, nil)
+			continue
+		}
+		work = append(work, b.Preds...)
+	}
+	return out, true
 }
 
 // phiCan: can the incoming value (possibly itself a Phi) satisfy the test?
@@ -481,4 +735,80 @@ func (p *Program) deadEnd(b *ssa.BasicBlock) bool {
 		}
 	}
 	return false
+}
+
+// usedEdges: the incoming edges of a Phi whose value can be observed by some
+// use of the Phi, given the tests on sibling merged values that guard each
+// use (`v, err := f(); if err != nil { return }; use(v)`); nil = no restriction.
+func (p *Program) usedEdges(ph *ssa.Phi) []bool {
+	p.ueMu.Lock()
+	if v, ok := p.usedEdge[ph]; ok {
+		p.ueMu.Unlock()
+		return v
+	}
+	p.ueMu.Unlock()
+	var res []bool
+	refs := ph.Referrers()
+	restricted := false
+	if refs != nil && len(*refs) > 0 {
+		res = make([]bool, len(ph.Edges))
+		n := 0
+		for _, r := range *refs {
+			if _, isDbg := r.(*ssa.DebugRef); isDbg {
+				continue
+			}
+			n++
+			ub := r.Block()
+			if rp, isPhi := r.(*ssa.Phi); isPhi {
+				// used on the edges that carry it
+				all := true
+				for i, e := range rp.Edges {
+					if e != ssa.Value(ph) {
+						continue
+					}
+					fe := p.feasibleEdgesAt(rp.Block().Preds[i])[ph.Block()]
+					if fe == nil {
+						all = false
+						for j := range res {
+							res[j] = true
+						}
+						continue
+					}
+					for j := range res {
+						res[j] = res[j] || fe[j]
+					}
+				}
+				_ = all
+				continue
+			}
+			fe := p.feasibleEdgesAt(ub)[ph.Block()]
+			if fe == nil {
+				for j := range res {
+					res[j] = true
+				}
+				continue
+			}
+			for j := range res {
+				res[j] = res[j] || fe[j]
+			}
+		}
+		for _, ok := range res {
+			if !ok {
+				restricted = true
+			}
+		}
+		if n == 0 {
+			restricted = false
+		}
+	}
+	if !restricted {
+		res = nil
+	}
+	p.ueMu.Lock()
+	if p.usedEdge == nil {
+		p.usedEdge = map[*ssa.Phi][]bool{}
+	}
+	p.usedEdge[ph] = res
+	p.ueMu.Unlock()
+	return res
 }
